@@ -1,5 +1,5 @@
 """C18 - attribute and key views of a simfile or chart never disagree (structural clauses)."""
-from ..rules import serial, views
+from ..rules import serial, views, writers
 
 EXPLANATION = (
     "Static rule checking of the descriptor machinery: R-CLONE/R-TABLE the three accessors of item_property apply get / []= / del to "
@@ -26,8 +26,8 @@ def c4(ctx):
 def c5(ctx):
     views.equality(ctx)
     serial.smchart_writer_fields(ctx)
-    serial.ssc_skip_is_what_is_written_last(ctx)
-    serial.writer_item_loop(ctx, serial.BASE_SERIALIZE, notes_exempt=False)
+    writers.ssc_chart_items(ctx, judge_skip_only=True)
+    writers.base_items(ctx)
 
 
 CLAUSES = [
